@@ -10,16 +10,17 @@
            (<<behaviour, predicate, line>>) and printed by the POSTCONDITION - not stop-on-first, because a behaviour
            that runs through a known deviation of the real code must not hide the behaviours recorded after it.
    Pass C (CSpec): every step is additionally an instance of the spec action from the previous real state (hidden writer
-           locals evolve by the spec, which also tells which named deviation the real code took).  Register 3 collects
-           <<behaviour, "CONF", deviations>> for behaviours that conform to the end and <<behaviour, "DIVERGED", line>>
-           for the first line no spec action explains; auxiliary invariants are collected as <<behaviour, "AUX:"name, line>>. *)
+           locals evolve by the spec, which also tells which named deviation the real code took).  Register 3 collects, for every
+           behaviour that conforms to the end, the deviations taken and the relaxed (X_) / auxiliary predicates that fail on its
+           final state; register 4 the lines no spec action explains (hidden-state forks that die also land there - a
+           behaviour is non-conforming iff it has no record in register 3). *)
 EXTENDS DocUpdate, TraceLib
 
 WSets == {{1}}
 VARIABLES l, bi, diverged
 tvars == <<vars, l, bi, diverged>>
 
-ASSUME TLCSet(2, {}) /\ TLCSet(3, {})
+ASSUME TLCSet(2, {}) /\ TLCSet(3, {}) /\ TLCSet(4, {})
 
 S == Trace[l]
 SetOf(x) == {x[i] : i \in 1..Len(x)}
@@ -43,7 +44,7 @@ Reset == /\ Ev("Reset")
          /\ allow' = S.allow /\ initLen' = S.n /\ initTomb' = S.tomb /\ ws' = 1..S.nw
          /\ Logged
          /\ match' = [w \in Writers |-> 0] /\ att' = [w \in Writers |-> 0] /\ loc' = [w \in Writers |-> NoLoc]
-         /\ dso' = [w \in Writers |-> 0] /\ uo' = [w \in Writers |-> <<>>] /\ dropped' = {} /\ dev' = {} /\ top' = [seq |-> S.seq, rev |-> S.cur]
+         /\ dso' = [w \in Writers |-> 0] /\ uo' = [w \in Writers |-> <<>>] /\ dropped' = {} /\ dev' = {} /\ top' = [seq |-> S.seq, rev |-> S.cur] /\ lost' = {} /\ backIdx' = {}
          /\ feed' = <<>> /\ quiesced' = FALSE
          /\ docSeqs' = <<>> /\ onDoc' = SetOf(S.iseq) /\ initSeq' = [i \in 1..Len(S.iseq) |-> S.iseq[i]]
          /\ hist' = <<>> /\ bi' = S.beh /\ diverged' = FALSE
@@ -72,7 +73,7 @@ PFailing == {n \in {"NoLostAck", "OwnSequence", "OneChildPerParent", "LosersLeav
                   [] n = "LosersLeaveNoTrace" -> LosersLeaveNoTrace
                   [] n = "RefusalsAreConflicts" -> RefusalsAreConflicts
                   [] n = "FeedAnnouncesFinal" -> FeedAnnouncesFinal}
-CollectP == bi < 0 \/ PFailing = {} \/ TLCSet(2, TLCGet(2) \cup {<<bi, n, l - 1>> : n \in PFailing})
+CollectP == bi < 0 \/ PFailing = {} \/ TLCSet(2, TLCGet(2) \cup {[b |-> bi, p |-> n, line |-> l - 1] : n \in PFailing})
 PProgress == Mark(l) /\ CollectP
 PAccept == PrintHWM /\ PrintT(<<"PVIOL", ToJson(TLCGet(2))>>)
 
@@ -93,18 +94,28 @@ CSkip    == /\ diverged /\ l <= TraceLen /\ S.a # "Reset" /\ l' = l + 1 /\ UNCHA
 CNext == CReset \/ CAny \/ CDiverge \/ CSkip
 CSpec == TInit /\ [][CNext]_tvars
 
-AuxFailing == {n \in {"TypeOK", "SeqSane", "NotYetWritten", "CurIsWinner", "Accounted", "ModelExplainsP"} :
-                 ~CASE n = "TypeOK" -> TypeOK
-                    [] n = "SeqSane" -> M_SeqSane
-                    [] n = "NotYetWritten" -> NotYetWritten
-                    [] n = "CurIsWinner" -> CurIsWinner
-                    [] n = "Accounted" -> M_Accounted
-                    [] n = "ModelExplainsP" -> (M_NoLostAck /\ M_OwnSequence /\ M_OneChildPerParent /\ M_LosersLeaveNoTrace /\ M_RefusalsAreConflicts /\ M_FeedAnnouncesFinal)}
+XNames == {"X_NoLostAck", "X_OwnSequence", "X_OneChildPerParent", "LosersLeaveNoTrace", "X_RefusalsAreConflicts", "X_FeedAnnouncesFinal",
+           "TypeOK", "SeqSane", "NotYetWritten", "CurIsWinner", "AccountedModuloDrop", "DevSane"}
+XFailing == {n \in XNames :
+               ~CASE n = "X_NoLostAck" -> X_NoLostAck
+                  [] n = "X_OwnSequence" -> X_OwnSequence
+                  [] n = "X_OneChildPerParent" -> X_OneChildPerParent
+                  [] n = "LosersLeaveNoTrace" -> LosersLeaveNoTrace
+                  [] n = "X_RefusalsAreConflicts" -> X_RefusalsAreConflicts
+                  [] n = "X_FeedAnnouncesFinal" -> X_FeedAnnouncesFinal
+                  [] n = "TypeOK" -> TypeOK
+                  [] n = "SeqSane" -> SeqSane
+                  [] n = "NotYetWritten" -> NotYetWritten
+                  [] n = "CurIsWinner" -> CurIsWinner
+                  [] n = "AccountedModuloDrop" -> AccountedModuloDrop
+                  [] n = "DevSane" -> DevSane}
+(* recorded once per behaviour, at the end of a run that conformed all the way: the named deviations the real code took,
+   what they overwrote, the sequences the real run leaked, and which relaxed / auxiliary predicates fail on the real state *)
 CollectC ==
   \/ bi < 0
-  \/ /\ (~diverged \/ TLCSet(3, TLCGet(3) \cup {<<bi, "DIVERGED", l - 1>>}))
-     /\ (diverged \/ AuxFailing = {} \/ TLCSet(3, TLCGet(3) \cup {<<bi, "AUX:" \o n, l - 1>> : n \in AuxFailing}))
-     /\ (~(quiesced /\ ~diverged) \/ TLCSet(3, TLCGet(3) \cup {<<bi, "CONF", dev, Leaked>>}))
+  \/ /\ (~diverged \/ TLCSet(4, TLCGet(4) \cup {[b |-> bi, line |-> l - 1]}))
+     /\ (~(quiesced /\ ~diverged) \/
+           TLCSet(3, TLCGet(3) \cup {[b |-> bi, dev |-> dev, lost |-> lost, leaked |-> Leaked, dropped |-> dropped, xfail |-> XFailing]}))
 CProgress == Mark(l) /\ CollectC
-CAccept == PrintHWM /\ PrintT(<<"CREC", ToJson(TLCGet(3))>>)
+CAccept == PrintHWM /\ PrintT(<<"CCONF", ToJson(TLCGet(3))>>) /\ PrintT(<<"CDIV", ToJson(TLCGet(4))>>)
 =============================================================================
